@@ -521,22 +521,10 @@ func c15Main(args []string) error {
 	go rig.copyBackend(cb)
 	go rig.dnsBackend(udp)
 	go rig.decoyListener(dl)
-	// three distinct ports: all listeners are held open until all have been chosen
-	var held []net.Listener
-	var ports []int
-	for i := 0; i < 3; i++ {
-		l, _ := listenLocal()
-		held = append(held, l)
-		ports = append(ports, l.Addr().(*net.TCPAddr).Port)
-	}
-	for _, l := range held {
-		l.Close()
-	}
-	p1, p2 := ports[0], ports[1]
-	rig.proxySSH = fmt.Sprintf("127.0.0.1:%d", ports[2])
-	pu, _ := net.ListenPacket("udp", "127.0.0.1:0")
-	p3 := pu.LocalAddr().(*net.UDPAddr).Port
-	pu.Close()
+	// the ports honeytrap will bind itself: below the ephemeral range and spread by pid (freePort), so that neither
+	// a parallel lab process nor a client socket takes one between our choosing it and the server binding it
+	p1, p2, p3 := freePort(), freePort(), freePort()
+	rig.proxySSH = fmt.Sprintf("127.0.0.1:%d", freePort())
 	rig.proxyHTTP = fmt.Sprintf("127.0.0.1:%d", p1)
 	rig.proxyCopy = fmt.Sprintf("127.0.0.1:%d", p2)
 	rig.proxyDNS = fmt.Sprintf("127.0.0.1:%d", p3)
